@@ -39,6 +39,22 @@ def run(ctx):
     classes = concrete_classes(schema)
     cidx = codec.class_index()
     lines, meta = [], []
+    # declared children whose class the package does not export: from_etree looks classes up by tag in the package
+    # namespace, so such a child can be built and written but never read back (the model cannot even name the class)
+    import importlib
+    for u in schema.get("unexported_targets", []):
+        case = {"cls": u["owner"], "child": u["attr"], "kind": u["kind"], "target": u["target"]}
+        ctx.evaluations += 1
+        try:
+            tcls = getattr(importlib.import_module(u["module"]), u["target"])
+            r = quiet(Aggregate.from_etree, ET.Element(tcls.__name__))
+            found = not (r[0] == "err" and not hasattr(gen.M, tcls.__name__))
+        except Exception:   # noqa
+            found = False
+        if not found:
+            ctx.violate("declared_child_class_not_found_by_tag", case,
+                        f"{u['owner']}.{u['attr']}: the child's class {u['target']} is not exported by ofxtools.models, so "
+                        f"Aggregate.from_etree(<{u['target']}>) cannot find it by its tag", {"cls": u["owner"], "attr": u["attr"]})
     for c in classes:
         name = c["name"]
         cls = getattr(gen.M, name)
@@ -91,7 +107,7 @@ def run(ctx):
                 if canon_inst(back) != canon_inst(inst):
                     # which attribute was lost?
                     if a["k"] in ("listagg", "listelem"):
-                        lost = len(list.__iter__(back)) != len(list.__iter__(inst))
+                        lost = len(list(list.__iter__(back))) != len(list(list.__iter__(inst)))
                     else:
                         lost = back.__dict__.get(attr) is None
                     ctx.violate("child_silently_skipped" if lost else "readback_differs", case,
